@@ -1,4 +1,5 @@
 import CTV.Lemmas.FrontEnd
+import CTV.Rfc6962.Wire
 /-!
 # C06 — the log front end presents one verifiable, append-only history
 
@@ -30,8 +31,8 @@ theorem sth_faithful (b : Backend) (hts : b.tsNanos < 2 ^ 64) (hsz : b.leaves.le
     (served leafH nodeH emptyH b).ts = b.tsNanos / 1000000 ∧
     (served leafH nodeH emptyH b).root = mth leafH nodeH emptyH b.values := by
   refine ⟨?_, ?_, rfl⟩
-  · simp only [served, Gen.sthTreeSize, U64.wrap]; omega
-  · simp only [served, Gen.sthTimestamp, U64.wrap, U64.div]
+  · simp only [served, headOf, Backend.rpcLatestRoot, Gen.sthTreeSize, U64.wrap]; omega
+  · simp only [served, headOf, Backend.rpcLatestRoot, Gen.sthTimestamp, U64.wrap, U64.div]
     have h0 : (0 : Int) ≤ (b.tsNanos : Int) := Int.natCast_nonneg _
     have h1 : (b.tsNanos : Int) < 2 ^ 64 := by exact_mod_cast hts
     omega
@@ -58,6 +59,24 @@ def serveAll (sign : Msg → Nat → Sig) : Cache Msg Sig → List (Msg × Nat) 
 def CacheOK (verify : Msg → Sig → Bool) (c : Cache Msg Sig) : Prop :=
   ∀ i s, c = some (i, s) → verify i s = true
 
+/-- one `signV1TreeHead`: the signature handed out verifies over the requested input and the cache stays valid -/
+theorem signHead_ok (sign : Msg → Nat → Sig) (verify : Msg → Sig → Bool) (hsign : ∀ m n, verify m (sign m n) = true)
+    (c : Cache Msg Sig) (i : Msg) (n : Nat) (hc : CacheOK verify c) :
+    verify i (signHead sign c i n).2 = true ∧ CacheOK verify (signHead sign c i n).1 := by
+  unfold signHead
+  cases c with
+  | none =>
+    refine ⟨hsign i n, ?_⟩
+    intro i' s' h; cases h; exact hsign i n
+  | some cs =>
+    obtain ⟨ci, cs⟩ := cs
+    by_cases he : ci = i
+    · simp only [he, if_true]
+      exact ⟨hc i cs (by rw [he]), by rw [← he]; exact hc⟩
+    · simp only [he, if_false]
+      refine ⟨hsign i n, ?_⟩
+      intro i' s' h; cases h; exact hsign i n
+
 /-- **sth_faithful (signature).** Whatever sequence of tree heads is requested (any interleaving of
     handlers sharing the cache), every signature served verifies under the log key over exactly the
     bytes it is served with: a cache hit returns a signature *over the same input*. Assumption: the
@@ -71,20 +90,7 @@ theorem sth_signature_verifies (sign : Msg → Nat → Sig) (verify : Msg → Si
     intro c hc p hp
     obtain ⟨i, n⟩ := r
     simp only [serveAll, List.mem_cons] at hp
-    have key : verify i (signHead sign c i n).2 = true ∧ CacheOK verify (signHead sign c i n).1 := by
-      unfold signHead
-      cases c with
-      | none =>
-        refine ⟨hsign i n, ?_⟩
-        intro i' s' h; cases h; exact hsign i n
-      | some cs =>
-        obtain ⟨ci, cs⟩ := cs
-        by_cases he : ci = i
-        · simp only [he, if_true]
-          exact ⟨hc i cs (by rw [he]), by rw [← he]; exact hc⟩
-        · simp only [he, if_false]
-          refine ⟨hsign i n, ?_⟩
-          intro i' s' h; cases h; exact hsign i n
+    have key := signHead_ok sign verify hsign c i n hc
     rcases hp with rfl | hp
     · exact key.1
     · exact ih _ key.2 p hp
@@ -104,7 +110,8 @@ theorem signHead_eq (sign : Msg → Nat → Sig) (c : Cache Msg Sig) (i : Msg) (
     signHead sign c i n = match cget c i with
       | some s => (c, s)
       | none => (cset i (sign i n), sign i n) := by
-  unfold signHead cget cset
+  rw [cget_spec]
+  unfold signHead cset
   cases c with
   | none => rfl
   | some cs =>
@@ -126,7 +133,7 @@ theorem cache_atomic_get_sound (verify : Msg → Sig → Bool) (evs : List (Cach
     | get j =>
       simp only [runCache, List.mem_cons, Prod.mk.injEq] at h
       rcases h with ⟨rfl, hg⟩ | h
-      · unfold cget at hg
+      · rw [cget_spec] at hg
         cases c with
         | none => simp at hg
         | some cs =>
@@ -156,7 +163,7 @@ theorem two_step_get_unsound :
   refine ⟨fun m s => s == m + 100, some (1, 101), some (2, 102), 102, ?_, ?_, rfl, ?_, ?_⟩
   · intro i s h; cases h; rfl
   · intro i s h; cases h; rfl
-  · simp [containsThenRead, cget]
+  · simp [containsThenRead, cget_spec]
   · rfl
 
 /-- the same schedule with the atomic get: the stale request simply misses -/
@@ -168,108 +175,208 @@ example : CacheOK (fun (m : Nat) (s : Nat) => s == m + 1) (none : Cache Nat Nat)
 
 end
 
+namespace Ex0
+def h (v : Bytes) : Nat := v.foldl (fun a x => a * 256 + x.toNat) 1
+def n (a b : Nat) : Nat := 1000 * a + b + 7
+end Ex0
+
+/-! ### the STH as served: head and signature together, over whole histories -/
+
+section
+variable {Hash Msg Sig : Type} [DecidableEq Msg]
+variable (leafH : Bytes → Hash) (nodeH : Hash → Hash → Hash) (emptyH : Hash)
+
+/-- a history of the whole front end: backend operations and get-sth calls (each with the randomness its signature would use) -/
+inductive FOp where
+  | op (o : Op)
+  | getSTH (nonce : Nat)
+
+/-- get-sth: fetch the root, build the head (`headOf`), serialise it (`ser` = `SerializeSTHSignatureInput`) and sign it through the cache. -/
+def frun (ser : Head Hash → Msg) (sign : Msg → Nat → Sig) :
+    Backend → Cache Msg Sig → List FOp → List (Backend × Head Hash × Sig)
+  | _, _, [] => []
+  | b, c, .op o :: rest => frun ser sign (step b o) c rest
+  | b, c, .getSTH n :: rest =>
+    let h := served leafH nodeH emptyH b
+    let r := signHead sign c (ser h) n
+    (b, h, r.2) :: frun ser sign b r.1 rest
+
+/-- **Every STH served verifies and is faithful — one statement.** In any history of submissions,
+    sequencing steps and get-sth calls, every answer `(head, signature)` of get-sth is the head of the
+    backend state at that moment (`served`, hence `sth_faithful` applies to it) **and** its signature
+    verifies under the log key over the serialisation of *that very head*. `ser` is any serialiser,
+    `sign`/`verify` any scheme with `hsign` (the primitive is trusted). -/
+theorem sth_served_verifies (ser : Head Hash → Msg) (sign : Msg → Nat → Sig) (verify : Msg → Sig → Bool)
+    (hsign : ∀ m n, verify m (sign m n) = true) (ops : List FOp) :
+    ∀ (b : Backend) (c : Cache Msg Sig), CacheOK verify c →
+      ∀ x ∈ frun leafH nodeH emptyH ser sign b c ops,
+        x.2.1 = served leafH nodeH emptyH x.1 ∧ verify (ser x.2.1) x.2.2 = true := by
+  induction ops with
+  | nil => intro b c _ x hx; simp [frun] at hx
+  | cons o rest ih =>
+    intro b c hc x hx
+    cases o with
+    | op o => exact ih _ c hc x hx
+    | getSTH n =>
+      simp only [frun, List.mem_cons] at hx
+      have key := signHead_ok sign verify hsign c (ser (served leafH nodeH emptyH b)) n hc
+      rcases hx with rfl | hx
+      · exact ⟨rfl, key.1⟩
+      · exact ih b _ key.2 x hx
+
+/-- the third call hits the cache: same input, the signature made with nonce 2 is served again -/
+example : (frun Ex0.h Ex0.n 0 (fun (h : Head Nat) => (h.size, h.ts)) (fun m k => (m, k))
+    (Backend.init 5000000) none [.getSTH 1, .op (.submit ⟨[1], [], [1]⟩), .op (.sequence 1 7000000), .getSTH 2, .getSTH 3]).map (·.2.2) =
+    [((0, 5), 1), ((1, 7), 2), ((1, 7), 2)] := by decide
+end
+
 section
 variable {Hash : Type} (leafH : Bytes → Hash) (nodeH : Hash → Hash → Hash) (emptyH : Hash)
 variable [DecidableEq Hash]
 
-/-! ## consistency_links -/
+/-! ## consistency_links
+
+The handler is `handleConsistency rpc first second`: parse guard (`Gen.parseGetSTHConsistencyRange`),
+`first = 0` shortcut (`Gen.consNeedsBackend`), the request `Gen.reqGetConsistencyProof first second`
+(**which parameter goes to FirstTreeSize / SecondTreeSize**), the tree-size guard
+(`Gen.consRootTooSmall`) and the relay (`Gen.relayConsistency`) — all regenerated from handlers.go;
+`rpc` is the assumed backend contract `Backend.rpcConsistency`. Exchanging first/second in the request
+literal exchanges the components of `Gen.reqGetConsistencyProof` and the proofs below fail. -/
+
+/-- **consistency, any in-range parameters.** In any backend state, for any `m ≤ n ≤ tree size`
+    (`n` an int64), the handler serves a proof that makes the library verifier accept the root of the
+    first `m` leaves as old root and the root of the first `n` leaves as new root. -/
+theorem consistency_at (b : Backend) (m n : Nat) (hmn : m ≤ n) (hn : n ≤ b.leaves.length) (h63 : n < 2 ^ 63) :
+    ∃ p, getConsistency leafH nodeH emptyH b m n = some p ∧
+      verifyConsistency nodeH m n p (mth leafH nodeH emptyH (b.values.take m)) (mth leafH nodeH emptyH (b.values.take n)) = true := by
+  have hvl : (b.values.take n).length = n := by simp [Backend.values]; omega
+  have hc := verifyConsistency_complete leafH nodeH emptyH (b.values.take n) m (by rw [hvl]; exact hmn)
+  rw [hvl, List.take_take, Nat.min_eq_left hmn] at hc
+  unfold getConsistency handleConsistency Gen.parseGetSTHConsistencyRange
+  have e1 : ¬ ((m : Int) < 0 ∨ (n : Int) < 0) := by omega
+  have e2 : ¬ ((n : Int) < (m : Int)) := by omega
+  simp only [Bool.false_eq_true, if_false, Bool.or_eq_true, decide_eq_true_eq, e1, e2]
+  by_cases h0 : m = 0
+  · subst h0
+    refine ⟨[], by simp [Gen.consNeedsBackend], ?_⟩
+    simpa using hc
+  · have hm0 : ¬ ((m : Int) = 0) := by omega
+    have hq : Gen.reqGetConsistencyProof (m : Int) (n : Int) = ((m : Int), (n : Int)) := rfl
+    have hr : ¬ (((m : Int) ≤ 0) ∨ ((n : Int) < (m : Int))) := by omega
+    have hsz : ¬ b.leaves.length < n := by omega
+    have hwrap : U64.wrap (n : Int) = (n : Int) := by unfold U64.wrap; omega
+    have hguard : Gen.consRootTooSmall (b.leaves.length : Int) (n : Int) = false := by
+      simp only [Gen.consRootTooSmall, hwrap, decide_eq_false_iff_not]; omega
+    simp only [Gen.consNeedsBackend, ne_eq, hm0, not_false_eq_true, decide_true, Bool.not_true, Bool.false_eq_true, if_false,
+      hq, Backend.rpcConsistency, hr, Int.toNat_natCast, hsz, hguard, Gen.relayConsistency]
+    refine ⟨_, rfl, ?_⟩
+    simp only [h0, false_or] at hc
+    exact hc
 
 /-- **consistency_links.** Take any state `b1`, any later state `b2 = run b1 ops12` and any still later
     state `b3 = run b2 ops23` (the moment the proof is requested). The proof the front end serves at
     `b3` for `first = |b1|`, `second = |b2|` makes the library verifier accept **exactly** the root
-    served at `b1` as old root and the root served at `b2` as new root (the statement is false with
-    the two exchanged, see the example below). -/
-theorem consistency_links (b1 : Backend) (ops12 ops23 : List Op) :
+    served at `b1` as old root and the root served at `b2` as new root. -/
+theorem consistency_links (b1 : Backend) (ops12 ops23 : List Op) (h63 : (run b1 ops12).leaves.length < 2 ^ 63) :
     ∃ p, getConsistency leafH nodeH emptyH (run (run b1 ops12) ops23) b1.leaves.length (run b1 ops12).leaves.length = some p ∧
       verifyConsistency nodeH b1.leaves.length (run b1 ops12).leaves.length p
         (b1.root leafH nodeH emptyH) ((run b1 ops12).root leafH nodeH emptyH) = true := by
-  obtain ⟨x, hx⟩ := leaves_run ops12 b1
-  obtain ⟨y, hy⟩ := leaves_run ops23 (run b1 ops12)
-  have hlen : b1.leaves.length ≤ (run b1 ops12).leaves.length := by rw [hx]; simp
-  have hlen3 : (run b1 ops12).leaves.length ≤ (run (run b1 ops12) ops23).leaves.length := by rw [hy]; simp
-  have hv3 : (run (run b1 ops12) ops23).values.take (run b1 ops12).leaves.length = (run b1 ops12).values := by
-    simp only [Backend.values, hy, List.map_append]
-    rw [List.take_append_of_le_length (by simp)]
-    rw [List.take_of_length_le (by simp)]
-  have hv1 : (run b1 ops12).values.take b1.leaves.length = b1.values := by
-    simp only [Backend.values, hx, List.map_append]
-    rw [List.take_append_of_le_length (by simp)]
-    rw [List.take_of_length_le (by simp)]
-  have hvl : (run b1 ops12).values.length = (run b1 ops12).leaves.length := by simp [Backend.values]
-  have hc := verifyConsistency_complete leafH nodeH emptyH (run b1 ops12).values b1.leaves.length (by rw [hvl]; exact hlen)
-  rw [hv1, hvl] at hc
-  unfold getConsistency Gen.parseGetSTHConsistencyRange
-  have e1 : ¬ ((b1.leaves.length : Int) < 0 ∨ ((run b1 ops12).leaves.length : Int) < 0) := by omega
-  have e2 : ¬ (((run b1 ops12).leaves.length : Int) < (b1.leaves.length : Int)) := by omega
-  simp only [Bool.false_eq_true, if_false, Bool.or_eq_true, decide_eq_true_eq, e1, e2, Int.toNat_natCast]
-  by_cases h0 : b1.leaves.length = 0
-  · have h0' : ((b1.leaves.length : Nat) : Int) = 0 := by omega
-    simp only [h0', if_true]
-    refine ⟨[], rfl, ?_⟩
-    simp only [h0, true_or, if_true] at hc
-    show verifyConsistency nodeH b1.leaves.length _ _ (mth leafH nodeH emptyH b1.values) (mth leafH nodeH emptyH (run b1 ops12).values) = true
-    rw [h0]; exact hc
-  · have h0' : ¬ ((b1.leaves.length : Nat) : Int) = 0 := by omega
-    have h3 : ¬ (run (run b1 ops12) ops23).leaves.length < (run b1 ops12).leaves.length := by omega
-    simp only [h0', if_false, h3]
-    refine ⟨_, rfl, ?_⟩
-    rw [hv3]
-    simp only [h0, false_or] at hc
-    exact hc
+  obtain ⟨hv12, hl12⟩ := values_prefix b1 ops12
+  obtain ⟨hv23, hl23⟩ := values_prefix (run b1 ops12) ops23
+  obtain ⟨p, hp, hver⟩ := consistency_at leafH nodeH emptyH (run (run b1 ops12) ops23) b1.leaves.length
+    (run b1 ops12).leaves.length hl12 hl23 h63
+  refine ⟨p, hp, ?_⟩
+  rw [hv23] at hver
+  have : (run (run b1 ops12) ops23).values.take b1.leaves.length = b1.values := by
+    rw [← hv12, ← hv23, List.take_take, Nat.min_eq_left hl12]
+  rw [this] at hver
+  exact hver
 
 /-! ## inclusion_ok -/
 
-/-- **inclusion_ok (get-entry-and-proof).** For any state `b1` (whose tree head may have been served),
-    any later state `b2` and any index `i < |b1|`: get-entry-and-proof for `(i, |b1|)` at `b2` serves
-    the `i`-th entry of `b1` and an audit path that verifies against the root served at `b1`. -/
-theorem inclusion_ok (b1 : Backend) (ops : List Op) (i : Nat) (hi : i < b1.leaves.length) :
-    ∃ l p, getEntryAndProof leafH nodeH emptyH (run b1 ops) i b1.leaves.length = some (l, p) ∧
+/-- **inclusion, any in-range parameters (get-entry-and-proof).** In any backend state whose leaves are
+    non-empty byte strings, for any `i < n ≤ tree size`: the handler (request
+    `Gen.reqGetEntryAndProof leaf_index tree_size`, guard, relay `Gen.relayEntryAndProof`) serves the
+    `i`-th stored entry — its `LeafValue` as leaf_input, its `ExtraData` as extra_data — with an audit
+    path that verifies against the root of the first `n` leaves. -/
+theorem inclusion_at (b : Backend) (i n : Nat) (hi : i < n) (hn : n ≤ b.leaves.length) (h63 : n < 2 ^ 63)
+    (hne : ∀ l ∈ b.leaves, l.value ≠ []) :
+    ∃ l p, getEntryAndProof leafH nodeH emptyH b i n = some (l.value, l.extra, p) ∧ b.leaves[i]? = some l ∧
+      verifyInclusion nodeH i n (leafH l.value) p (mth leafH nodeH emptyH (b.values.take n)) = true := by
+  have hil : i < b.leaves.length := by omega
+  have hl : b.leaves[i]? = some b.leaves[i] := List.getElem?_eq_getElem hil
+  have hvl : (b.values.take n).length = n := by simp [Backend.values]; omega
+  have hd : (b.values.take n)[i]? = some b.leaves[i].value := by
+    rw [List.getElem?_take]; simp [hi, Backend.values, List.getElem?_map, hl]
+  have hver := verifyInclusion_complete leafH nodeH emptyH (b.values.take n) i b.leaves[i].value hd
+  rw [hvl] at hver
+  refine ⟨b.leaves[i], path leafH nodeH emptyH i (b.values.take n), ?_, hl, hver⟩
+  unfold getEntryAndProof handleEntryAndProof Gen.parseGetEntryAndProofParams
+  have e1 : ¬ ((n : Int) ≤ 0) := by omega
+  have e2 : ¬ ((i : Int) < 0) := by omega
+  have e3 : ¬ ((i : Int) ≥ (n : Int)) := by omega
+  have hq : Gen.reqGetEntryAndProof (i : Int) (n : Int) = ((i : Int), (n : Int)) := rfl
+  have hr : ¬ (((n : Int) ≤ 0) ∨ ((i : Int) < 0) ∨ ((i : Int) ≥ (n : Int))) := by omega
+  have hsz : ¬ b.leaves.length < n := by omega
+  have hwrap : U64.wrap (n : Int) = (n : Int) := by unfold U64.wrap; omega
+  have hguard : Gen.entryAndProofRootTooSmall (b.leaves.length : Int) (n : Int) = false := by
+    simp only [Gen.entryAndProofRootTooSmall, hwrap, decide_eq_false_iff_not]; omega
+  have hv : b.leaves[i].value.isEmpty = false := by
+    have := hne b.leaves[i] (List.getElem_mem hil)
+    cases hvv : b.leaves[i].value with
+    | nil => exact absurd hvv this
+    | cons _ _ => rfl
+  have hpe : (decide ((n : Int) > 1) && (path leafH nodeH emptyH i (b.values.take n)).isEmpty) = false := by
+    by_cases h1 : n ≤ 1
+    · have : ¬ ((n : Int) > 1) := by omega
+      simp [this]
+    · have := path_ne_nil leafH nodeH emptyH i (b.values.take n) (by rw [hvl]; omega)
+      cases hpp : path leafH nodeH emptyH i (b.values.take n) with
+      | nil => exact absurd hpp this
+      | cons _ _ => simp
+  simp only [decide_eq_true_eq, e1, e2, e3, if_false, hq, Backend.rpcEntryAndProof, hr, Int.toNat_natCast, hsz, hguard,
+    Bool.false_eq_true, hl, hv, hpe, Gen.relayEntryAndProof, or_self]
+
+/-- **inclusion_ok.** For any state `b1` (whose tree head may have been served), any later state `b2`
+    and any index `i < |b1|`: get-entry-and-proof for `(i, |b1|)` at `b2` serves the `i`-th entry of
+    `b1` and an audit path that verifies against the root served at `b1`. -/
+theorem inclusion_ok (b1 : Backend) (ops : List Op) (i : Nat) (hi : i < b1.leaves.length) (h63 : b1.leaves.length < 2 ^ 63)
+    (hne : ∀ l ∈ (run b1 ops).leaves, l.value ≠ []) :
+    ∃ l p, getEntryAndProof leafH nodeH emptyH (run b1 ops) i b1.leaves.length = some (l.value, l.extra, p) ∧
       b1.leaves[i]? = some l ∧
       verifyInclusion nodeH i b1.leaves.length (leafH l.value) p (b1.root leafH nodeH emptyH) = true := by
-  obtain ⟨x, hx⟩ := leaves_run ops b1
-  have hv : (run b1 ops).values.take b1.leaves.length = b1.values := by
-    simp only [Backend.values, hx, List.map_append]
-    rw [List.take_append_of_le_length (by simp)]
-    rw [List.take_of_length_le (by simp)]
-  have hl : b1.leaves[i]? = some b1.leaves[i] := List.getElem?_eq_getElem hi
-  refine ⟨b1.leaves[i], path leafH nodeH emptyH i b1.values, ?_, hl, ?_⟩
-  · unfold getEntryAndProof Gen.parseGetEntryAndProofParams
-    have e1 : ¬ ((b1.leaves.length : Int) ≤ 0) := by omega
-    have e2 : ¬ ((i : Int) < 0) := by omega
-    have e3 : ¬ ((i : Int) ≥ (b1.leaves.length : Int)) := by omega
-    have e4 : ¬ (run b1 ops).leaves.length < b1.leaves.length := by rw [hx]; simp
-    simp only [decide_eq_true_eq, e1, e2, e3, if_false, Int.toNat_natCast, e4]
-    rw [hx, List.getElem?_append_left hi, hl]
-    simp only [Option.some.injEq, Prod.mk.injEq, true_and]
-    rw [hv]
-  · have hvl : b1.values.length = b1.leaves.length := by simp [Backend.values]
-    have hd : b1.values[i]? = some b1.leaves[i].value := by
-      simp [Backend.values, List.getElem?_map, hl]
-    have := verifyInclusion_complete leafH nodeH emptyH b1.values i b1.leaves[i].value hd
-    rw [hvl] at this
-    exact this
+  obtain ⟨hv, hle⟩ := values_prefix b1 ops
+  obtain ⟨l, p, h1, h2, h3⟩ := inclusion_at leafH nodeH emptyH (run b1 ops) i b1.leaves.length hi hle h63 hne
+  rw [hv] at h3
+  rw [leaves_prefix b1 ops i hi] at h2
+  exact ⟨l, p, h1, h2, h3⟩
 
-/-- **inclusion_ok (get-proof-by-hash).** The leaf hash of any entry of `b1` is found at the lowest
-    index holding that hash, with an audit path that verifies against the root served at `b1`. -/
-theorem proofByHash_ok (b1 : Backend) (ops : List Op) (i : Nat) (l : Leaf) (hl : b1.leaves[i]? = some l) :
+/-- **inclusion_ok (get-proof-by-hash).** The leaf hash of any entry of `b1` is found, at any later
+    state, at the lowest index holding that hash (the handler relays the **first** proof of the reply,
+    `Gen.relayProofByHash`; request `Gen.reqGetInclusionProofByHash hash tree_size`), with an audit
+    path that verifies against the root served at `b1`. -/
+theorem proofByHash_ok (b1 : Backend) (ops : List Op) (i : Nat) (l : Leaf) (hl : b1.leaves[i]? = some l)
+    (h63 : b1.leaves.length < 2 ^ 63) :
     ∃ j p, getProofByHash leafH nodeH emptyH (run b1 ops) (leafH l.value) b1.leaves.length = some (j, p) ∧ j ≤ i ∧
       (∃ l', b1.leaves[j]? = some l' ∧ leafH l'.value = leafH l.value) ∧
       verifyInclusion nodeH j b1.leaves.length (leafH l.value) p (b1.root leafH nodeH emptyH) = true := by
-  obtain ⟨x, hx⟩ := leaves_run ops b1
+  obtain ⟨hv, hle⟩ := values_prefix b1 ops
   have hi : i < b1.leaves.length := by
     rcases Nat.lt_or_ge i b1.leaves.length with h | h
     · exact h
     · simp [List.getElem?_eq_none h] at hl
-  have hv : (run b1 ops).values.take b1.leaves.length = b1.values := by
-    simp only [Backend.values, hx, List.map_append]
-    rw [List.take_append_of_le_length (by simp)]
-    rw [List.take_of_length_le (by simp)]
   have hvl : b1.values.length = b1.leaves.length := by simp [Backend.values]
   have hvi : b1.values[i]? = some l.value := by simp [Backend.values, List.getElem?_map, hl]
-  unfold getProofByHash
+  unfold getProofByHash handleProofByHash
   have e1 : ¬ ((b1.leaves.length : Int) < 1) := by omega
-  have e4 : ¬ (run b1 ops).leaves.length < b1.leaves.length := by rw [hx]; simp
-  simp only [e1, if_false, Int.toNat_natCast, e4, hv]
+  have hq : Gen.reqGetInclusionProofByHash (leafH l.value) (b1.leaves.length : Int) = (leafH l.value, (b1.leaves.length : Int)) := rfl
+  have hr : ¬ ((b1.leaves.length : Int) ≤ 0) := by omega
+  have hsz : ¬ (run b1 ops).leaves.length < b1.leaves.length := by omega
+  have hwrap : U64.wrap (b1.leaves.length : Int) = (b1.leaves.length : Int) := by unfold U64.wrap; omega
+  have hguard : Gen.proofByHashRootTooSmall ((run b1 ops).leaves.length : Int) (b1.leaves.length : Int) = false := by
+    simp only [Gen.proofByHashRootTooSmall, hwrap, decide_eq_false_iff_not]; omega
+  simp only [Gen.proofByHashBadSize, Bool.false_or, decide_eq_true_eq, e1, if_false, hq, Backend.rpcProofByHash, hr,
+    Int.toNat_natCast, hsz, hv]
   cases hf : b1.values.findIdx? (fun v => leafH v == leafH l.value) with
   | none =>
     rw [List.findIdx?_eq_none_iff] at hf
@@ -287,6 +394,7 @@ theorem proofByHash_ok (b1 : Backend) (ops : List Op) (i : Nat) (l : Leaf) (hl :
         rw [hvi'] at this; simp at this
       · exact h
     have hjl : j < b1.leaves.length := by omega
+    simp only [List.map_cons, hguard, Bool.false_eq_true, if_false, Gen.relayProofByHash]
     refine ⟨j, _, rfl, hji, ⟨b1.leaves[j], List.getElem?_eq_getElem hjl, ?_⟩, ?_⟩
     · have : b1.values[j] = b1.leaves[j].value := by simp [Backend.values]
       rw [← this]; simpa using hpj
@@ -296,6 +404,14 @@ theorem proofByHash_ok (b1 : Backend) (ops : List Op) (i : Nat) (l : Leaf) (hl :
       have hh : leafH b1.values[j] = leafH l.value := by simpa using hpj
       rw [hh] at this
       exact this
+
+/-- **get-entries serves the stored entries** of the requested range (the range arithmetic and the
+    byte relay are C07's subject). -/
+theorem entries_are_stored (b : Backend) (s e k : Nat) (hk : s + k ≤ e) :
+    (getEntries b s e)[k]? = b.leaves[s + k]? := by
+  unfold getEntries
+  rw [List.getElem?_take, List.getElem?_drop]
+  simp [show k < e + 1 - s by omega]
 
 /-! ## sct_findable -/
 
@@ -332,7 +448,7 @@ theorem sct_findable_partial (ts : Nat) (ops1 ops2 : List Op) (cand : Leaf) :
     let stored := (b0.queue cand).2
     let b2 := run b1 ops2
     stored.idHash = cand.idHash ∧
-    (stored ∈ b2.leaves →
+    (stored ∈ b2.leaves → b2.leaves.length < 2 ^ 63 →
       (∀ x ∈ b2.all, ∀ y ∈ b2.all, leafH x.value = leafH y.value → x.value = y.value) →
       ValuesIdentify b2 →
       ∃ i p, b2.leaves[i]? = some stored ∧
@@ -345,7 +461,7 @@ theorem sct_findable_partial (ts : Nat) (ops1 ops2 : List Op) (cand : Leaf) :
     · exact h
     · show (b0.queue cand).2.idHash = cand.idHash; rw [h]
   refine ⟨hid, ?_⟩
-  intro hmem hinj hvi
+  intro hmem h63 hinj hvi
   have hnd : NodupIds b2 := by
     have h0 : NodupIds b0 := nodupIds_run ops1 _ (nodupIds_init ts)
     have h1 : NodupIds b1 := nodupIds_step b0 (.submit cand) h0
@@ -372,7 +488,7 @@ theorem sct_findable_partial (ts : Nat) (ops1 ops2 : List Op) (cand : Leaf) :
       simp only [Backend.all, List.getElem?_map]
       rw [List.getElem?_append_left hil, hi]; simp
     exact nodup_idx_unique _ j i _ hnd a1 a2
-  obtain ⟨j, p, hp, hji, ⟨l', hl', hh⟩, hver⟩ := proofByHash_ok leafH nodeH emptyH b2 [] i stored hi
+  obtain ⟨j, p, hp, hji, ⟨l', hl', hh⟩, hver⟩ := proofByHash_ok leafH nodeH emptyH b2 [] i stored hi h63
   simp only [run] at hp
   have hje : j = i := huniq j l' hl' hh
   subst hje
@@ -423,6 +539,29 @@ theorem encLeaf_inj (e e' : Entry) (ts ts' : Nat) (he : EntryWf e) (he' : EntryW
       have := List.append_cancel_right h5
       rw [hk, this]
 
+/-- `encLeaf` **is** the shared RFC 6962 wire library's `MerkleTreeLeaf` (`CTV/Rfc6962/Wire.lean`, the
+    transcription of §3.4 that C04 relates to the repository's struct tags) for a v1 leaf without
+    extensions — the C06 model has no private copy of the layout. -/
+def toWire : Entry → Rfc.SignedEntry
+  | .x509 c => .x509 c
+  | .precert k t => .precert ⟨k, t⟩
+
+theorem encLeaf_eq_wire (e : Entry) (ts : Nat) (hts : ts < 2 ^ 64)
+    (he : match e with
+      | .x509 c => 1 ≤ c.length ∧ c.length ≤ 16777215
+      | .precert k t => k.length = 32 ∧ 1 ≤ t.length ∧ t.length ≤ 16777215) :
+    Rfc.merkleTreeLeaf ⟨0, ⟨ts, toWire e, []⟩⟩ = some (encLeaf e ts) := by
+  have h8 : ts < 256 ^ 8 := by simpa using hts
+  cases e with
+  | x509 c =>
+    obtain ⟨h1, h2⟩ := he
+    simp [Rfc.merkleTreeLeaf, Rfc.timestampedEntry, Rfc.signedEntry, Rfc.uintN, Rfc.asn1Cert, Rfc.varVector, Rfc.ctExtensions,
+      Rfc.lenWidth, Rfc.SignedEntry.entryType, toWire, encLeaf, h8, h1, h2, beEnc, Option.bind]
+  | precert k t =>
+    obtain ⟨h0, h1, h2⟩ := he
+    simp [Rfc.merkleTreeLeaf, Rfc.timestampedEntry, Rfc.signedEntry, Rfc.uintN, Rfc.preCert, Rfc.opaqueFixed, Rfc.varVector,
+      Rfc.ctExtensions, Rfc.lenWidth, Rfc.SignedEntry.entryType, toWire, encLeaf, h8, h0, h1, h2, beEnc, Option.bind]
+
 /-- For X.509 entries the hypothesis `ValuesIdentify` of `sct_findable_partial` holds outright when the
     identity hash is a function of the certificate (CTFE: SHA-256 of the leaf certificate's DER). -/
 theorem valuesIdentify_x509 (b : Backend) (idOf : Bytes → Bytes)
@@ -437,6 +576,112 @@ theorem valuesIdentify_x509 (b : Backend) (idOf : Bytes → Bytes)
   rw [hxi, hyi]
 
 example : encLeaf (.x509 [0x30, 0x00]) 1234 = [0,0, 0,0,0,0,0,0,4,210, 0,0, 0,0,2, 0x30,0x00, 0,0] := by decide
+
+/-- **What holds without `ValuesIdentify`.** Once sequenced at index `i`, the client-computed hash of
+    the stored leaf is found at the **lowest** index `j ≤ i` whose leaf *value* equals the stored one
+    (no leaf-hash collision among stored values assumed), with a verifying path. Whether `j = i`, and
+    whether the entry at `j` carries the submitted certificate in its `extra_data`, is exactly
+    `ValuesIdentify` (see `same_tbs_counterexample`). -/
+theorem sct_found_lowest (b : Backend) (i : Nat) (stored : Leaf) (hi : b.leaves[i]? = some stored) (h63 : b.leaves.length < 2 ^ 63)
+    (hinj : ∀ x ∈ b.leaves, ∀ y ∈ b.leaves, leafH x.value = leafH y.value → x.value = y.value) :
+    ∃ j p l', getProofByHash leafH nodeH emptyH b (leafH stored.value) b.leaves.length = some (j, p) ∧ j ≤ i ∧
+      b.leaves[j]? = some l' ∧ l'.value = stored.value ∧
+      verifyInclusion nodeH j b.leaves.length (leafH stored.value) p (b.root leafH nodeH emptyH) = true := by
+  obtain ⟨j, p, hp, hji, ⟨l', hl', hh⟩, hver⟩ := proofByHash_ok leafH nodeH emptyH b [] i stored hi h63
+  simp only [run] at hp
+  exact ⟨j, p, l', hp, hji, hl', hinj l' (List.mem_of_getElem? hl') stored (List.mem_of_getElem? hi) hh, hver⟩
+
+/-- **The reachable state that `ValuesIdentify` excludes** (finding C06-1): two submissions with
+    different identity hashes (two precertificates that differ only in their signature bytes) but the
+    same `MerkleTreeLeaf` bytes (same TBS, same issuer, same millisecond). Both are stored; the leaf
+    hash of the second is found at the index of the first, whose `extra_data` is the *other*
+    precertificate; two indices carry the hash. -/
+theorem same_tbs_counterexample :
+    let p1 : Leaf := ⟨[7], [1], [10]⟩
+    let p2 : Leaf := ⟨[7], [2], [11]⟩
+    let b := run (Backend.init 0) [.submit p1, .submit p2, .sequence 2 5]
+    b.leaves = [p1, p2] ∧ ¬ ValuesIdentify b ∧
+    (getProofByHash Ex0.h Ex0.n 0 b (Ex0.h p2.value) 2).map (·.1) = some 0 ∧
+    (∃ p, getEntryAndProof Ex0.h Ex0.n 0 b 0 2 = some (p1.value, p1.extra, p)) := by
+  intro p1 p2 b
+  have hb : b.leaves = [p1, p2] := by decide
+  refine ⟨hb, ?_, by decide, ?_⟩
+  · intro h
+    have := h p1 (by decide) p2 (by decide) rfl
+    simp [p1, p2] at this
+  · obtain ⟨l, p, h1, h2, _⟩ := inclusion_at Ex0.h Ex0.n 0 b 0 2 (by omega) (by rw [hb]; simp) (by omega)
+      (by rw [hb]; intro l hl; simp [p1, p2] at hl; rcases hl with rfl | rfl <;> simp)
+    rw [hb] at h2
+    simp at h2
+    subst h2
+    exact ⟨p, h1⟩
+
+/-- the leaf of an X.509 submission: `MerkleTreeLeaf` of the certificate at some timestamp, identity hash a function of the certificate -/
+def ShapedX509 (idOf : Bytes → Bytes) (l : Leaf) : Prop :=
+  ∃ c t, l.value = encLeaf (.x509 c) t ∧ l.idHash = idOf c ∧ c.length < 2 ^ 24 ∧ t < 2 ^ 64
+
+/-- **sct_findable for X.509 histories — no hypothesis on the final state.** All submissions of the
+    history are X.509-shaped (leaf = `encLeaf (.x509 cert) ts`, identity hash `idOf cert` with `idOf`
+    injective — CTFE: SHA-256 of the certificate). A certificate `c` is submitted at time `t` (fresh or
+    duplicate). Then the stored leaf the SCT is built from is the leaf **of that certificate** at some
+    timestamp `t0` (the SCT's): the hash a client computes from `c` and `t0` alone,
+    `leafH (encLeaf (.x509 c) t0)`, is the stored leaf's hash; once sequenced it is found at exactly
+    one index with a verifying path. -/
+theorem sct_findable_x509 (idOf : Bytes → Bytes) (hid : ∀ a b, idOf a = idOf b → a = b)
+    (ts : Nat) (ops1 ops2 : List Op) (c : Bytes) (t : Nat) (extra : Bytes)
+    (hc : c.length < 2 ^ 24) (ht : t < 2 ^ 64)
+    (h1 : ∀ x, Op.submit x ∈ ops1 → ShapedX509 idOf x) (h2 : ∀ x, Op.submit x ∈ ops2 → ShapedX509 idOf x) :
+    let cand : Leaf := ⟨encLeaf (.x509 c) t, extra, idOf c⟩
+    let b0 := run (Backend.init ts) ops1
+    let stored := (b0.queue cand).2
+    let b2 := run (b0.queue cand).1 ops2
+    ∃ t0, stored.value = encLeaf (.x509 c) t0 ∧ t0 < 2 ^ 64 ∧
+      (stored ∈ b2.leaves → b2.leaves.length < 2 ^ 63 →
+        (∀ x ∈ b2.all, ∀ y ∈ b2.all, leafH x.value = leafH y.value → x.value = y.value) →
+        ∃ i p, b2.leaves[i]? = some stored ∧
+          getProofByHash leafH nodeH emptyH b2 (leafH (encLeaf (.x509 c) t0)) b2.leaves.length = some (i, p) ∧
+          verifyInclusion nodeH i b2.leaves.length (leafH (encLeaf (.x509 c) t0)) p (b2.root leafH nodeH emptyH) = true ∧
+          ∀ j l', b2.leaves[j]? = some l' → leafH l'.value = leafH (encLeaf (.x509 c) t0) → j = i) := by
+  intro cand b0 stored b2
+  have hcand : ShapedX509 idOf cand := ⟨c, t, rfl, rfl, hc, ht⟩
+  -- everything held is X.509-shaped
+  have hb0 : ∀ x ∈ b0.all, ShapedX509 idOf x := by
+    intro x hx
+    rcases mem_all_run ops1 _ x hx with h | h
+    · simp [Backend.all, Backend.init] at h
+    · exact h1 x h
+  have hb1 : ∀ x ∈ (b0.queue cand).1.all, ShapedX509 idOf x := by
+    intro x hx
+    rcases all_queue b0 cand with ⟨e, _, _⟩ | ⟨e, _, _⟩
+    · rw [e] at hx; exact hb0 x hx
+    · rw [e, List.mem_append, List.mem_singleton] at hx
+      rcases hx with hx | hx
+      · exact hb0 x hx
+      · rw [hx]; exact hcand
+  have hb2 : ∀ x ∈ b2.all, ShapedX509 idOf x := by
+    intro x hx
+    rcases mem_all_run ops2 _ x hx with h | h
+    · exact hb1 x h
+    · exact h2 x h
+  -- the stored leaf is the leaf of the submitted certificate
+  have hst : stored ∈ (b0.queue cand).1.all ∧ stored.idHash = idOf c := by
+    rcases all_queue b0 cand with ⟨e, hm, hi⟩ | ⟨e, hs, _⟩
+    · exact ⟨by rw [e]; exact hm, hi⟩
+    · refine ⟨by rw [e]; show (b0.queue cand).2 ∈ _; rw [hs]; simp, ?_⟩
+      show (b0.queue cand).2.idHash = _; rw [hs]
+  obtain ⟨c', t0, hv, hi', _, ht0⟩ := hb1 stored hst.1
+  have hcc : c' = c := hid c' c (by rw [← hi', hst.2])
+  subst hcc
+  refine ⟨t0, hv, ht0, ?_⟩
+  intro hmem h63 hinj
+  have hvi : ValuesIdentify b2 := valuesIdentify_x509 b2 idOf (by
+    intro x hx
+    obtain ⟨cx, tx, a, b, c1, d⟩ := hb2 x hx
+    exact ⟨cx, tx, a, b, c1, d⟩)
+  have := (sct_findable_partial leafH nodeH emptyH ts ops1 ops2 cand).2 hmem h63 hinj hvi
+  rw [← hv]
+  exact this
+
 
 /-- A duplicate submission is answered from the stored leaf, so its SCT (built from `stored`) is the
     SCT of the original submission and nothing new is queued. -/
@@ -469,5 +714,18 @@ example : verifyConsistency Ex.n 1 2 [Ex.h [2]] (Ex.n (Ex.h [1]) (Ex.h [2])) (Ex
   simp [h2]
   rw [rootsFromCons]
   simp [Ex.n, Ex.h]
+
+/-! ### the theorems applied to concrete histories (their hypotheses are jointly satisfiable) -/
+
+example := consistency_links Ex0.h Ex0.n 0 (Backend.init 0) Ex.hist [.read] (by decide)
+example := inclusion_ok Ex0.h Ex0.n 0 (run (Backend.init 1) Ex.hist) [.read] 1 (by decide) (by decide)
+  (by intro l hl; have : (run (run (Backend.init 1) Ex.hist) [.read]).leaves = [Ex.c1, Ex.c2] := by decide
+      rw [this] at hl; simp at hl; rcases hl with rfl | rfl <;> simp [Ex.c1, Ex.c2])
+example := sct_findable_x509 Ex0.h Ex0.n 0 id (fun _ _ h => h) 0
+  [.submit ⟨encLeaf (.x509 [1]) 5, [], [1]⟩] [.sequence 5 9] [2] 7 [] (by decide) (by decide)
+  (by intro x hx; simp at hx; subst hx; exact ⟨[1], 5, rfl, rfl, by decide, by decide⟩)
+  (by intro x hx; simp at hx)
+/-- the duplicate case of `sct_findable_partial`: the second submission of identity `[1]` is answered from the stored leaf -/
+example := (sct_findable_partial Ex0.h Ex0.n 0 1 [.submit Ex.c1] [.sequence 1 5] Ex.c1').1
 
 end C06
